@@ -12,7 +12,7 @@ DEFAULT_NS = "https://ns.dataone.org/service/types/v2.0#"
 STORE_ALGOS = ["MD5", "SHA-1", "SHA-256", "SHA-384", "SHA-512"]
 
 PID_POOL = ["a", "ab", "ab.c", "b", "doi:10.18739/A2901ZH2M", "urn:uuid:1b35d0a5-b17a", "A",
-            "jtao.1700.1", "a/b", "..", "-rf", "p*?[1]"]
+            "jtao.1700.1", "a/b", "..", "-rf", "p*?[1]", "doi:10.5063/caf\u00e9", "\u65e5\u672c\u8a9e", "\U0001F600x"]
 FORMAT_POOL = [DEFAULT_NS, "http://ns.dataone.org/service/types/v1", "eml://eml-2.2.0", "c", "bc", "f"]
 
 
@@ -248,7 +248,8 @@ def gen_seq_program(seed, prof, tier="quick", mp=None, length=None):
             op = {"op": "store", "pid": None, "c": rng.randrange(ncont), "kind": rng.choice(["str", "path", "file"])}
             ops.append(op)
         elif k == "tag":
-            ref = ["c", rng.randrange(ncont)] if rng.random() < 0.75 else ["x", rng.randrange(2)]
+            r = rng.random()
+            ref = ["c", rng.randrange(ncont)] if r < 0.7 else (["x", rng.randrange(2)] if r < 0.93 else ["C", rng.randrange(ncont)])
             ops.append({"op": "tag", "pid": rng.randrange(npids), "cid": ref})
         elif k == "delete":
             ops.append({"op": "delete", "pid": rng.randrange(npids)})
@@ -517,6 +518,7 @@ def single_states():
                                  {"op": "smeta", "pid": 0, "fmt": 1, "m": 1}, _st(1, 1),
                                  {"op": "smeta", "pid": 1, "fmt": None, "m": 1}]),
         ("p0->missing", [{"op": "tag", "pid": 0, "cid": ["x", 0]}]),
+        ("p2=A,p0=A,p1=A", [_st(2, 0), _st(0, 0), _st(1, 0)]),
         ("p0=A,p1=B", [_st(0, 0), _st(1, 1)]),
     ]
 
